@@ -76,6 +76,10 @@ class Readout:
     ):
         self._time_domain_simulation = True
 
+        if isinstance(times, np.ndarray):
+            # A numpy array (e.g. given by 'Readout.replace') has no truth value and is not a 'Sequence'
+            times = times.tolist()
+
         if times is not None and times_from_file is not None:
             raise ValueError("Both times and times_from_file specified. Choose one.")
         elif times is times_from_file is None:
